@@ -347,9 +347,13 @@ def rule_cost(ctx: Ctx, S: Search):
     for n in ast.walk(S.loop.ast):
         if isinstance(n, ast.If) and any(isinstance(x, ast.Continue) for x in n.body):
             for c in ast.walk(n.test):
-                if isinstance(c, ast.Compare) and isinstance(c.left, ast.Attribute) and c.left.attr == "cost_from_start" \
-                        and isinstance(c.comparators[0], ast.Name) and c.comparators[0].id == gvar:
-                    ok = isinstance(c.ops[0], (ast.LtE, ast.Lt))
+                if not (isinstance(c, ast.Compare) and len(c.ops) == 1):
+                    continue
+                l, r, op = c.left, c.comparators[0], type(c.ops[0])
+                if isinstance(r, ast.Attribute) and r.attr == "cost_from_start" and isinstance(l, ast.Name):       # mirrored spelling
+                    l, r, op = r, l, {ast.Lt: ast.Gt, ast.Gt: ast.Lt, ast.LtE: ast.GtE, ast.GtE: ast.LtE}.get(op, op)
+                if isinstance(l, ast.Attribute) and l.attr == "cost_from_start" and isinstance(r, ast.Name) and r.id == gvar:
+                    ok = op in (ast.LtE, ast.Lt)
                     ctx.check(ok, "REV-1", fi, c, "skip successor when the queued node is cheaper or equal", "",
                               f"revision guard `{norm(c)}` skips cheaper routes and keeps more expensive ones")
     # stale-node skip: popped state already visited -> continue
